@@ -66,6 +66,7 @@ pub fn adapter_checks(prev: &blake3::Hasher, succ: &blake3::Hasher, bytes: &[u8]
         let pool = &pools[(bytes.len() + prev.count() as usize) % pools.len()];
         let mut r = prev.clone();
         let forced = crate::subject::forced();
+        let _in_flight = watchdog::enter("update_rayon (several harness threads call it at the same time on their own hashers, through shared pools)");
         if let Err(m) = vcommon::catch(|| {
             pool.install(|| {
                 // the forced level is a thread-local of the harness: carry it onto the pool's thread
@@ -86,6 +87,70 @@ pub fn adapter_checks(prev: &blake3::Hasher, succ: &blake3::Hasher, bytes: &[u8]
         rep.inc("adapter_rayon_checks");
     }
     None
+}
+
+/// A call into the subject that can involve other threads (rayon) may never return if the subject
+/// deadlocks. Calls register here while they are in flight; a watchdog thread turns a call that has
+/// been in flight for a minute into a verdict (the engine cannot cancel the stuck threads: it writes
+/// its report with that one violation, or answers the replay, and exits).
+pub mod watchdog {
+    use std::sync::atomic::{AtomicU64, Ordering};
+    use std::sync::{Mutex, OnceLock};
+    use std::time::{Duration, Instant};
+
+    static ARGS: OnceLock<vcommon::Args> = OnceLock::new();
+    static IN_FLIGHT: Mutex<Vec<(u64, Instant, &'static str)>> = Mutex::new(Vec::new());
+    static NEXT: AtomicU64 = AtomicU64::new(1);
+    pub const LIMIT_S: u64 = 60;
+
+    pub fn init(args: &vcommon::Args) {
+        let _ = ARGS.set(args.clone());
+    }
+
+    pub struct Guard(u64);
+    impl Drop for Guard {
+        fn drop(&mut self) {
+            IN_FLIGHT.lock().unwrap_or_else(|e| e.into_inner()).retain(|x| x.0 != self.0);
+        }
+    }
+
+    pub fn enter(what: &'static str) -> Guard {
+        static STARTED: OnceLock<()> = OnceLock::new();
+        STARTED.get_or_init(|| {
+            std::thread::spawn(|| loop {
+                std::thread::sleep(Duration::from_secs(2));
+                let stuck = IN_FLIGHT.lock().unwrap_or_else(|e| e.into_inner()).iter().filter(|x| x.1.elapsed().as_secs() >= LIMIT_S).map(|x| x.2).next();
+                if let Some(what) = stuck {
+                    fire(what);
+                }
+            });
+        });
+        let id = NEXT.fetch_add(1, Ordering::SeqCst);
+        IN_FLIGHT.lock().unwrap_or_else(|e| e.into_inner()).push((id, Instant::now(), what));
+        Guard(id)
+    }
+
+    fn fire(what: &str) -> ! {
+        let key = "watchdog:call-never-returns";
+        let summary = format!("a call of {} has not returned for {} s: deadlock (or livelock) between independent hashers", what, LIMIT_S);
+        eprintln!("VERIF-WATCHDOG {}", summary);
+        if let Some(args) = ARGS.get() {
+            if args.replay.is_some() {
+                println!("violation {}: {}", key, summary);
+                println!("REPRODUCED");
+                std::process::exit(1);
+            }
+            let mut rep = vcommon::Report::new(args, "core/watchdog", "model_checking");
+            rep.inc("evaluations");
+            rep.inc("states");
+            rep.inc("transitions");
+            rep.violation(key, summary, vcommon::serde_json::json!({"property": args.prop, "engine": "core/watchdog", "watchdog": what, "check": key}));
+            rep.cap("the exploration was abandoned when the watchdog fired");
+            rep.write(&args.report);
+            std::process::exit(0);
+        }
+        std::process::exit(4);
+    }
 }
 
 /// A hasher of `mode` constructed through the traits where a trait constructor exists.
